@@ -44,7 +44,7 @@ let rx_case cfg cmds stream cuts =
   let wf = c.(1) * 256 + c.(2) and rf = c.(3) in
   let mb = ((c.(4) * 256 + c.(5)) * 256 + c.(6)) * 256 + c.(7) in
   let config = { c_qinit_fail = (c.(0) land 1 = 1); c_wfail = (if wf = 0xffff then None else Some (nat_of_int wf));
-                 c_maxbytes = nat_of_int mb; c_rs = rX_KIB } in
+                 c_maxbytes = nat_of_int mb; c_rs = rX_KIB; c_fix = rX_CR_AFTER_LOOP } in
   let rec cm = function
     | a :: b :: f :: p :: q :: r -> ((nat_of_int (a * 256 + b), (f land 1 = 1)), nat_of_int (p * 256 + q)) :: cm r
     | _ -> [] in
